@@ -28,18 +28,22 @@ Notation kcanon := (kcanon maxvec cap_txin cap_txout cap_vecu8 cap_h32 pt_ok pk_
 Definition whole_key (k : bytes) : option bytes := match k with [] => None | _ => Some k end.
 
 (* modes: see translator/tables_C07.py *)
+Inductive fmode := FOpt | FMand | FPropOpt | FMap | FXpub | FScalars | FProprietary | FUnknown | FReject | FPropOptLast.
+Definition mode_of (m : N) : fmode :=
+  if m =? 0 then FOpt else if m =? 1 then FMand else if m =? 2 then FPropOpt else if m =? 3 then FMap else if m =? 4 then FXpub
+  else if m =? 5 then FScalars else if m =? 6 then FProprietary else if m =? 7 then FUnknown else if m =? 9 then FPropOptLast else FReject.
 Definition row_of_desc (d : desc) : row :=
-  let m := d_mode d in
+  let m := mode_of (d_mode d) in
   let t := n2b (d_dec d) in
   let kt := ty_of_name (d_kty d) in
   let vt := ty_of_name (d_vty d) in
-  {| r_addr := if (m =? 2) || (m =? 5) || (m =? 9) then APset t else if m =? 6 then AProp else if m =? 7 then AUnk else APlain t;
-     r_kind := if (m =? 0) || (m =? 1) || (m =? 2) then KOpt else if m =? 9 then KOptLast else if m =? 8 then KReject else KMap;
-     r_vfirst := (m =? 4) || (m =? 5);
-     r_kcanon := if (m =? 6) || (m =? 7) then whole_key else kcanon kt;
-     r_vcanon := if (m =? 6) || (m =? 7) then (fun _ v => POk v) else vcanon vt;
-     r_disc := if m =? 5 then DAppend else if m =? 6 then DSorted (proj_prop maxvec) else if m =? 7 then DSorted proj_bytes else DSorted (key_proj kt);
-     r_mand := m =? 1 |}.
+  {| r_addr := match m with FPropOpt | FScalars | FPropOptLast => APset t | FProprietary => AProp | FUnknown => AUnk | _ => APlain t end;
+     r_kind := match m with FOpt | FMand | FPropOpt => KOpt | FPropOptLast => KOptLast | FReject => KReject | _ => KMap end;
+     r_vfirst := match m with FXpub | FScalars => true | _ => false end;
+     r_kcanon := match m with FProprietary | FUnknown => whole_key | _ => kcanon kt end;
+     r_vcanon := match m with FProprietary | FUnknown => (fun _ v => POk v) | _ => vcanon vt end;
+     r_disc := match m with FScalars => DAppend | FProprietary => DSorted (proj_prop maxvec) | FUnknown => DSorted proj_bytes | _ => DSorted (key_proj kt) end;
+     r_mand := match m with FMand => true | _ => false end |}.
 
 Definition Tg : table := map row_of_desc C07_GLOBAL_FIELDS.
 Definition Ti : table := map row_of_desc C07_INPUT_FIELDS.
@@ -104,10 +108,17 @@ Definition route_ok (T : table) : bool :=
                      | AProp => match find_idx is_prop T with Some j => Nat.eqb j (fst ir) | None => false end
                      | AUnk => match find_idx is_unk T with Some j => Nat.eqb j (fst ir) | None => false end end)
           (List.combine (seq 0 (length T)) T).
+Definition is_taptree (t : vty) : bool := match t with TyTapTree => true | _ => false end.
+Definition idx_taptree : nat := idx C07_OUTPUT_FIELDS (blit_of "tap_tree"%lb).
+(* no key type is TapTree; the only value of type TapTree is the output field tap_tree *)
+Definition taptree_only : bool :=
+  forallb (fun d => negb (is_taptree (ty_of_name (d_kty d))) && negb (is_taptree (ty_of_name (d_vty d)))) (C07_GLOBAL_FIELDS ++ C07_INPUT_FIELDS) &&
+  forallb (fun id => negb (is_taptree (ty_of_name (d_kty (snd id)))) && (negb (is_taptree (ty_of_name (d_vty (snd id)))) || Nat.eqb (fst id) idx_taptree))
+          (List.combine (seq 0 (length C07_OUTPUT_FIELDS)) C07_OUTPUT_FIELDS).
 Definition tables_ok : bool :=
   forallb desc_ok C07_GLOBAL_FIELDS && forallb desc_ok C07_INPUT_FIELDS && forallb desc_ok C07_OUTPUT_FIELDS &&
   route_ok Tg && route_ok Ti && route_ok To &&
   forallb (fun n => Nat.ltb (idx C07_GLOBAL_FIELDS n) (length C07_GLOBAL_FIELDS)) names_needed_g &&
   forallb (fun n => Nat.ltb (idx C07_OUTPUT_FIELDS n) (length C07_OUTPUT_FIELDS)) names_needed_o &&
-  bytes_eqb C07_MAGIC magic.
+  bytes_eqb C07_MAGIC magic && taptree_only.
 End TABLES.
